@@ -7,6 +7,11 @@ sys.path.insert(0, os.path.join(HERE, "tools"))
 import props
 all_ids = [json.loads(l)["id"] for l in open(os.path.join(HERE, "properties.jsonl"))]
 na_reasons = json.load(open(os.path.join(HERE, "tools", "not_applicable.json")))
+# only properties listed in tools/ready.json are claimed (engines under construction are not)
+READY = set(json.load(open(os.path.join(HERE, "tools", "ready.json"))))
+for _p in list(props.PROPS):
+    if _p not in READY:
+        del props.PROPS[_p]
 hooks = subprocess.run("git -C /repo log --format=%H --grep='^verif hook' ", shell=True, stdout=subprocess.PIPE).stdout.decode().split()
 checks = []
 for pid in all_ids:
